@@ -24,7 +24,7 @@ import (
 func init() { checks["C08"] = runC08 }
 
 var c08Keys = []string{"a", "b", "z", "k", "", " ", "1", "2", "10", "01", "0x1f", "1e3", "true", "false", "yes", "no", "null", "~", "3.5", "a b", "a: b", "- x", "#c", "é", "日本",
-	"key", "Key", "KEY", "{x}", "[y]", "*s", "&t", "!u", "%v", "@w", "`q", "it's", "q\"q", "tab\tk", "nl\nk", "?", "|", ">", "=", "---", "...", "2002-08-15", "1:30", "+1", ".inf"}
+	"key", "Key", "KEY", "C:\\new\\bin", "a\\\\b", "\\tmp", "trail\\", "{x}", "[y]", "*s", "&t", "!u", "%v", "@w", "`q", "it's", "q\"q", "tab\tk", "nl\nk", "?", "|", ">", "=", "---", "...", "2002-08-15", "1:30", "+1", ".inf"}
 
 func c08Map(r *core.Rand, size, depth int) *ordered.MapSA {
 	m := ordered.NewMap[string, any](size)
@@ -173,7 +173,7 @@ func runC08(c *ctx) error {
 			entries = append(entries, envEntry{k, k})
 		}
 		overridden := map[string]bool{}
-		for _, ov := range []envEntry{{"0x10", "16"}, {"True", "true"}, {"M1", "M1"}, {"16", "16"}} {
+		for _, ov := range []envEntry{{"0x10", "16"}, {"True", "true"}, {"M1", "M1"}, {"16", "16"}, {"*akey ", "M2"}} {
 			if rng.Intn(3) == 0 && !overridden[ov.canon] {
 				pos := rng.Intn(len(entries) + 1)
 				entries = append(entries[:pos], append([]envEntry{ov}, entries[pos:]...)...)
@@ -183,7 +183,7 @@ func runC08(c *ctx) error {
 		}
 		mergePos := rng.Intn(len(entries) + 1)
 		var b strings.Builder
-		b.WriteString("base: &base\n  M1: m1\n  \"16\": m16\n  M2: m2\n  \"true\": mt\n")
+		b.WriteString("akeys: [&akey M2]\nbase: &base\n  M1: m1\n  \"16\": m16\n  M2: m2\n  \"true\": mt\n")
 		b.WriteString("env:\n")
 		var wantEnv []string
 		merged := func() {
